@@ -521,6 +521,27 @@ pub fn jetfree_recipe(r: &mut Rng, size: usize) -> Recipe {
     rec
 }
 
+/// Recipe whose jets are drawn from the given indices into `Core::ALL` only (the Miri leg
+/// supplies Rust implementations for a handful of jets).
+pub fn limited_jet_recipe(r: &mut Rng, size: usize, allowed: &[usize]) -> Recipe {
+    let mut rec = random_recipe(r, Family::Core, size);
+    for o in rec.ops.iter_mut() {
+        match o {
+            GOp::Jet(i) => *i = allowed[*i % allowed.len()],
+            GOp::JetApplied(i) => *i = allowed[*i % allowed.len()],
+            _ => {}
+        }
+    }
+    // make sure jets actually occur
+    let k = r.urange(1, 3);
+    for _ in 0..k {
+        rec.ops.push(GOp::JetApplied(*r.pick(allowed)));
+        rec.ops.push(if r.bool() { GOp::Pair } else { GOp::Swap });
+    }
+    rec.close = Close::Early;
+    rec
+}
+
 /// Several assertions, some of them sharing a hidden CMR (for the repeated-hidden-node rule).
 pub fn assert_recipe(r: &mut Rng, family: Family) -> Recipe {
     let mut ops = Vec::new();
